@@ -144,8 +144,8 @@ def parse_one(buf, off):
             raise WireError('bad PUSH_PROMISE')
         pr = struct.unpack('>L', p[:4])[0]
         if pr >> 31:
-            raise WireError('reserved bit in promised id')
-        f['promised'] = pr
+            f['reserved_bit_in_promised_id'] = True      # malformed on the wire; judged by C02, tolerated here
+        f['promised'] = pr & 0x7FFFFFFF
         f['block'] = p[4:]
     elif t == 'PING':
         if ln != 8 or sid != 0:
